@@ -17,6 +17,13 @@ COMMON_ASSUMPTIONS = [
 ]
 
 
+def _discard(path):
+    try:
+        os.remove(path)
+    except OSError:
+        pass
+
+
 def generic(sub, rule, n_quick, n_thorough, builds=("chk",), needs_ref=True, min_evaluations=1000, assumptions=(), exhaustive=False,
             extra_args=None, level="exploration", post=None, extra_args_by_tier=None):
     def plan(pid, tier, seed, t0):
@@ -449,15 +456,17 @@ def c07_plan(pid, tier, seed, t0):
                 reports.append({"died": "exit %s" % p.returncode, "shard": s, "stderr": se.decode("utf-8", "replace")[-1500:]})
                 continue
             reports.append(json.load(open(out)))
-            checkers.append(subprocess.Popen([sys.executable, os.path.join(o.VERIF, "py", "check_slices.py"), recs], stdout=subprocess.PIPE,
-                                             stderr=subprocess.PIPE, text=True))
+            checkers.append((subprocess.Popen([sys.executable, os.path.join(o.VERIF, "py", "check_slices.py"), recs], stdout=subprocess.PIPE,
+                                              stderr=subprocess.PIPE, text=True), recs))
         m = o.merge(reports)
-        for c in checkers:
+        for c, recs in checkers:
             so, se = c.communicate()
             if c.returncode != 0:
                 m["harness_errors"].append("check_slices.py failed: %s" % se[-500:])
                 continue
             res = json.loads(so)
+            if not res["violations"]:
+                _discard(recs)  # event logs are large; keep only those that witness something
             py_records += res["records"]
             for k, v in res["kinds"].items():
                 py_kinds[k] = py_kinds.get(k, 0) + v
@@ -547,15 +556,17 @@ def records_plan(sub, checker, rule, n_quick, n_thorough, builds=("chk",), min_e
                     reports.append({"died": "exit %s" % p.returncode, "shard": s, "stderr": se.decode("utf-8", "replace")[-1500:]})
                     continue
                 reports.append(json.load(open(out)))
-                checkers.append(subprocess.Popen([sys.executable, os.path.join(o.VERIF, "py", checker), recs], stdout=subprocess.PIPE,
-                                                 stderr=subprocess.PIPE, text=True))
+                checkers.append((subprocess.Popen([sys.executable, os.path.join(o.VERIF, "py", checker), recs], stdout=subprocess.PIPE,
+                                                  stderr=subprocess.PIPE, text=True), recs))
             m = o.merge(reports)
-            for c in checkers:
+            for c, recs in checkers:
                 so, se = c.communicate()
                 if c.returncode != 0:
                     m["harness_errors"].append("%s failed: %s" % (checker, se[-500:]))
                     continue
                 res = json.loads(so)
+                if not res["violations"]:
+                    _discard(recs)
                 for k, v in res.get("stats", {}).items():
                     py_stats[k] = py_stats.get(k, 0) + v
                 for v in res["violations"]:
